@@ -633,6 +633,11 @@ fn walk(bytes: &[u8]) -> String {
         }
         Err(e) => err_name(&e),
     })));
+    simple!("TIG", MinidumpThreadInfoList, |l| {
+        let all: Vec<&MinidumpThreadInfo> = l.thread_infos.iter().collect();
+        let v: Vec<String> = all.iter().take(8).map(|t| pos(&all, l.get_thread_info(t.raw.thread_id))).collect();
+        if v.is_empty() { "ok".to_string() } else { format!("ok:{}", v.join(":")) }
+    });
     f.join(";")
 }
 
